@@ -71,8 +71,10 @@ int ep_setup(Endpoint *ep, int side, Conn *c, const Plan *p, const CredSet *cs, 
 	if (tls_ctx_set_cipher_suites(&ep->ctx, suite, 1) != 1) return -1;
 
 	if (side == 0) {
-		ep->ctx.cacerts = dupmem(cs->trust, cs->trust_len);
-		ep->ctx.cacertslen = cs->trust_len;
+		if (!(p->cred_mode == 2 && p->proto == P_TLCP)) {
+			ep->ctx.cacerts = dupmem(cs->trust, cs->trust_len);
+			ep->ctx.cacertslen = cs->trust_len;
+		}
 		ep->ctx.verify_depth = TLS_DEFAULT_VERIFY_DEPTH;
 		if (p->mutual) {
 			ep->ctx.certs = dupmem(cs->cli_chain, cs->cli_chain_len);
